@@ -9,7 +9,7 @@
     add up to the total." *)
 From Coq Require Import List NArith Bool.
 From SV Require Import lib.Bytes lib.SqlExpr model.PendingTypes gen.GenPending model.Pending
-  proofs.PendingGenSpec proofs.PendingProofs proofs.PendingSound.
+  proofs.PendingGenSpec proofs.PendingProofs proofs.PendingSound proofs.PendingWaits.
 Import ListNotations.
 Open Scope N_scope.
 
@@ -235,6 +235,26 @@ Theorem C19_runnable_means_dispatchable :
   forall sn i root, In (i, root) (attributed sn) -> c_kind root = K_ROOT_RUNNABLE ->
     exists v, In v (U sn) /\ s_id v = c_src root /\ dispatchable sn v.
 Proof. exact runnable_root_dispatchable. Qed.
+
+(* "Transitively waits for": a step is attributed to a root EXACTLY when following its primary
+   BLOCK_STEP edges (reported_under: RU_wait steps, each a real block by C19_wait_edge_is_real) reaches
+   the step of U whose recorded cause that root is; and it is in the cyclic residue EXACTLY when that
+   chain reaches no root at all.  No acyclicity assumption. *)
+Theorem C19_attributed_iff_waits_for_root :
+  forall sn, wf_snap sn -> forall i root,
+    In (i, root) (attributed sn) <-> reported_under sn i root.
+Proof. exact attributed_iff_reported. Qed.
+
+Theorem C19_wait_edge_is_real :
+  forall sn u, In u (U sn) -> c_kind (primary sn u) = K_BLOCK_STEP ->
+    exists p, s_id p = c_src (primary sn u) /\ in_U sn p = true
+              /\ (produces_blocking_input sn u p \/ broken_ancestor sn u p).
+Proof. exact wait_edge_real. Qed.
+
+Theorem C19_cyclic_iff_no_root :
+  forall sn, wf_snap sn -> forall i,
+    In i (cyclic_ids sn) <-> In i (U_ids sn) /\ forall root, ~ reported_under sn i root.
+Proof. exact cyclic_iff_no_root. Qed.
 
 (* The bucket queries: _bucket counts the attributed rows of the kind it is called with, the cyclic
    bucket the steps absent from pend_attributed, and _analyze_pending fills failed / cyclic /
